@@ -109,6 +109,7 @@ def part_corr(ctx, jobs, res, atts, only=None):
     n_eval = n_nontrivial = n_oracle = n_mismatch = 0
     dist = {}
     found_input = False
+    mismatches = []
     for (cfg, pragma), r in zip(jobs, res):
         if not r.get("ok"):
             if n_mismatch < MAX_REPORTS:
@@ -142,11 +143,14 @@ def part_corr(ctx, jobs, res, atts, only=None):
                     ctx.violation("failing-input", ov[0], detail, key=f"c09:{cfg.name}:{pragma}:{s.desc}")
             elif not cr.compare(m, real):
                 n_mismatch += 1
-                if n_mismatch <= MAX_REPORTS:
-                    ctx.violation("correspondence-broken", "Lock.v prediction differs from EVM observation", detail)
+                if len(mismatches) < MAX_REPORTS:
+                    mismatches.append(detail)
         if len(ctx.samples) < 4:
             s = scen_sets[pragma][len(ctx.samples) * 97 % len(scen_sets[pragma])]
             ctx.samples.append({"config": cfg.name, "scenario": s.desc, "tree": cc.coq_node(s.top, pragma)[:300]})
+    if not found_input:   # model/code disagreement on which the property's oracle still holds
+        for d in mismatches:
+            ctx.violation("correspondence-broken", "Lock.v prediction differs from EVM observation", d)
     ctx.corr["evaluations"] = n_eval
     ctx.corr["distinct_nontrivial"] = n_nontrivial
     ctx.corr["rule"] = ("one evaluation = one scenario (outer kind/exit x depth x inner kind, seeded inner exit/static/direct) under "
